@@ -13,6 +13,14 @@ module S = Stdlib.String
 let handlers : (string, string list -> string * string) Hashtbl.t = Hashtbl.create 64
 let register name f = Hashtbl.replace handlers name f
 
+(* ---- C05: the ranges named by a real tables.list judged by Compact.ranges_ok ---- *)
+let () = register "listorder" (fun args ->
+  let ranges = split_on ',' (L.nth args 0) in
+  let ts = L.map (fun r -> match S.split_on_char '-' r with
+    | [a; b] -> { Compact.t_min = n_of_string a; t_max = n_of_string b; t_sha256 = false; t_refs = []; t_logs = [] }
+    | _ -> failwith "listorder: range") ranges in
+  ("open=ok", if Compact.ranges_ok None ts then "ok" else "bad: tables.list names update-index ranges that are not strictly increasing: " ^ L.nth args 0))
+
 (* ---- C17 ---- *)
 let show_suggest = function
   | None -> "none"
